@@ -119,9 +119,23 @@ func (c *c03Gen) body(sc *c03Scope) string {
 					continue
 				}
 				params = p
+				callArgs := fmt.Sprint(c.nid())
+				switch g.N(4) {
+				case 1: // keyword-only parameter (captured by inner scopes like any other local)
+					c.kinds["param-kwonly"] = true
+					params = "*, " + p + "=" + fmt.Sprint(c.nid())
+					callArgs = p + "=" + callArgs
+				case 2: // *args parameter
+					c.kinds["param-varargs"] = true
+					params = "*" + p
+				case 3: // a mix: positional, *args and a keyword-only parameter after it
+					c.kinds["param-kwonly"] = true
+					params = "z0, *z1, " + p + "=" + fmt.Sprint(c.nid()) + ", **z2"
+					callArgs = callArgs + ", 7, " + p + "=" + fmt.Sprint(c.nid())
+				}
 				body := c.fnBody(fsc, p)
 				sb.WriteString("def " + fn + "(" + params + "):\n" + Indent(body, 4))
-				call := fmt.Sprintf("%s(%d)\n", fn, c.nid())
+				call := fmt.Sprintf("%s(%s)\n", fn, callArgs)
 				if g.Bool() {
 					sb.WriteString(call)
 				}
@@ -267,6 +281,14 @@ var c03Templates = []string{
 	"def f():\n    a = 1\n    del a\n    try:\n        return a\n    except UnboundLocalError:\n        return 'ULE'\n    except NameError:\n        return 'NE'\n_log.append(f())\n",
 	"def f():\n    a = 1\n    def g():\n        return a\n    del a\n    try:\n        return g()\n    except NameError:\n        return 'NE'\n_log.append(f())\n",
 	"class A:\n    x = 1\n    y = [x for q in range(2)]\n_log.append(A.y)\n",
+	// parameters of every kind captured by inner scopes (cell variables that are arguments)
+	"def f(p, d=2, *va, k=3, **kw):\n    def g():\n        return (p, d, va, k, sorted(kw.keys()))\n    return g()\n_log.append(f(1))\n_log.append(f(1, 5, 6, 7, k=8, z=9))\n",
+	"def f2(*, k=1, m=2):\n    return [(k, m) for q in range(1)]\n_log.append(f2())\n_log.append(f2(m=5))\n",
+	"def f3(*va, k=4):\n    class C:\n        def m(self):\n            return (va, k)\n    return C().m()\n_log.append(f3())\n_log.append(f3(1, 2, k=9))\n",
+	"def f4(a, *, k=3):\n    return (lambda: (a, k))()\n_log.append(f4(1))\n_log.append(f4(1, k=2))\n",
+	"def f5(a, **kw):\n    return (lambda: (a, sorted(kw.keys())))()\n_log.append(f5(1, x=2))\n",
+	"def f6(a, b, *c, d=1):\n    def g():\n        return d\n    def h():\n        return (b, c)\n    return (g(), h(), a)\n_log.append(f6(1, 2, 3))\n",
+	"def f7(self, *, key=None, reverse=False):\n    return sorted([3, 1, 2], key=lambda v: (key or 1) * v, reverse=reverse)\n_log.append(f7(0))\n_log.append(f7(0, key=-1))\n",
 	"x = 10\nclass A:\n    x = 1\n    try:\n        y = [x for q in range(2)]\n    except NameError:\n        y = 'NE'\n_log.append(A.y)\n",
 }
 
